@@ -20,10 +20,17 @@ type caseSpec struct {
 	DelayMs    int    `json:"delay_ms"` // stop issued DelayMs after the anchor
 	Pipes      string `json:"pipes"`    // "held by descendant" | "released by descendants"
 	Directed   bool   `json:"directed,omitempty"`
+	// Launcher: "" | "removed before the stop": the command is started through a link which is deleted once the
+	// tree is ready (a launcher script cleaned up, a tool replaced by an upgrade): the running processes do not care.
+	Launcher string `json:"launcher,omitempty"`
 }
 
 func (c caseSpec) canonical() string {
-	return fmt.Sprintf("start=%s stop=%s class=%s shape=%s at=%s+%dms", c.Start, c.Stop, c.ShapeClass, c.ShapeText, c.Anchor, c.DelayMs)
+	s := fmt.Sprintf("start=%s stop=%s class=%s shape=%s at=%s+%dms", c.Start, c.Stop, c.ShapeClass, c.ShapeText, c.Anchor, c.DelayMs)
+	if c.Launcher != "" {
+		s += " launcher=" + c.Launcher
+	}
+	return s
 }
 
 type combo struct{ start, stop string }
@@ -233,6 +240,19 @@ func genCases(r *vrun.Run) []caseSpec {
 		c.ShapeText = c.Shape.String()
 		out = append(out, c)
 	}
+	// the executable the command was started from is no longer there when the stop is requested
+	for i, cb := range []combo{{"Start", "Stop"}, {"Start", "context-cancel"}, {"Start", "Cancel"}, {"Execute", "context-cancel"}, {"Execute", "Cancel"}} {
+		rng := r.Rand("c05-launcher", i)
+		class := []string{"fan", "chain", "background child holding pipes"}[(i+int(r.Seed))%3]
+		c := caseSpec{Index: len(out), Start: cb.start, Stop: cb.stop, ShapeClass: class, Anchor: "ready", DelayMs: 10 + rng.IntN(100), Launcher: "removed before the stop"}
+		c.Shape = buildShape(class, rng, cb.start)
+		c.ShapeText = c.Shape.String()
+		c.Pipes = "released by descendants"
+		if holdsPipes(c.Shape, true) {
+			c.Pipes = "held by descendant"
+		}
+		out = append(out, c)
+	}
 	if r.Quick() {
 		// every start x stop combination on every shape class; the instants rotate so that each
 		// combination and each class meets every instant class
@@ -250,6 +270,9 @@ func genCases(r *vrun.Run) []caseSpec {
 		cb := combos[rng.IntN(len(combos))]
 		class := classes[rng.IntN(len(classes))]
 		add(cb, class, rng.IntN(7), rng)
+		if c := &out[len(out)-1]; c.Anchor == "ready" && c.Stop != "Restart" && c.Start != "Supervisor" && rng.IntN(5) == 0 {
+			c.Launcher = "removed before the stop"
+		}
 	}
 	return out
 }
